@@ -96,7 +96,7 @@ def run_one(m, root="/repo", verbose=False):
 def main():
     ap = argparse.ArgumentParser()
     ap.add_argument("--only", default=None)
-    ap.add_argument("--id", default=None)
+    ap.add_argument("--id", default=None, help="comma-separated mutant ids")
     ap.add_argument("--jobs", type=int, default=16)
     ap.add_argument("--root", default="/repo")
     ap.add_argument("-v", action="store_true")
@@ -107,7 +107,7 @@ def main():
         pids = set(a.only.upper().split(","))
         ms = [dict(m, pids=[p for p in m["pids"] if p in pids]) for m in ms if pids & set(m["pids"])]
     if a.id:
-        ms = [m for m in ms if m["id"] == a.id]
+        ms = [m for m in ms if m["id"] in a.id.split(",")]
     bad = 0
     counts = {}
     with cf.ThreadPoolExecutor(max_workers=a.jobs) as ex:
